@@ -413,8 +413,122 @@ def run_long(ctx, pt):
     ctx.eq(K + '/fresh-object-after-%d-calls-in-the-process' % N, [(lambda r: (r[0], obs(r[1])))(ctx.attempt(call, o2, i)) for i in probe[:2]], [('ok', b) for b in base[:2]])
 
 
+# ---- first use: every ordered pair of configurations, each pair in its own process ---------------------------
+
+def configs():
+    """name -> thunk performing one one-shot call on a freshly constructed object of that configuration"""
+    from crysp.sha import SHA1, SHA2, SHA3
+    from crysp.md import MD4, MD5, MD6
+    from crysp.keccak import Keccak
+    from crysp.blake import Blake, Blake2
+    from crysp.skein import Skein
+    from crysp.hmac import HMAC
+    from crysp.tlsh import TLSH
+    from crysp.nilsimsa import Nilsimsa
+    from crysp.aes import AES
+    from crysp.des import DES, TDEA
+    from crysp.serpent import Serpent
+    from crysp.threefish import Threefish
+    from crysp import mode as Mo
+    from crysp.salsa20 import Salsa20
+    from crysp.chacha import Chacha
+    from crysp.rc4 import RC4
+    import crysp.crc as C
+    import crysp.blake as BL
+    import crysp.keccak as KE
+    import crysp.tlsh as TL
+    txt = (b'The quick brown fox jumps over the lazy dog. ' * 12)
+    c = {}
+    for n in (224, 256, 384, 512):
+        c['SHA2-%d' % n] = (lambda n: lambda: SHA2(n)(m1))(n)
+        c['SHA3-%d' % n] = (lambda n: lambda: SHA3(n)(m1))(n)
+        c['Blake-%d' % n] = (lambda n: lambda: Blake(n)(m1))(n)
+        c['Blake2(%d)' % n] = (lambda n: lambda: Blake2(n)(m1))(n)
+    c['SHA2-512/224'] = lambda: SHA2(512, 224)(m1)
+    c['SHA2-512/256'] = lambda: SHA2(512, 256)(m1)
+    c['SHA1'] = lambda: SHA1(1)(m1)
+    c['SHA0'] = lambda: SHA1(0)(m1)
+    c['MD4'] = lambda: MD4()(m1)
+    c['MD5'] = lambda: MD5()(m1)
+    c['blake256 (module instance)'] = lambda: BL.blake256(m1)
+    c['blake2b (module instance)'] = lambda: BL.blake2b(m1)
+    c['blake2s (module instance)'] = lambda: BL.blake2s(m1)
+    c['blake2b outlen=20'] = lambda: Blake2(512)(m1, outlen=20)
+    c['keccak_256 (module instance)'] = lambda: KE.keccak_256(m1)
+    c['Keccak b=200'] = lambda: Keccak(b=200, r=40, len=16)(m1)
+    c['Keccak r=1024'] = lambda: Keccak(r=1024, c=576, len=64)(m1)
+    for n in (256, 512, 1024):
+        c['Skein-%d' % n] = (lambda n: lambda: Skein(n, n)(m1))(n)
+        c['Threefish-%d' % n] = (lambda n: lambda: Threefish(ramp(n // 8), ramp(16, 3)).enc(ramp(n // 8, 5, 1)))(n)
+    c['Skein-256-224'] = lambda: Skein(256, 224)(m1)
+    c['Skein-512 keyed'] = lambda: Skein(512, 512, key=b'key')(m1)
+
+    def md6(d, L, key=b''):
+        o = MD6(d, Key=key, L=L)
+        o.rounds = 8
+        return o
+    c['MD6-256'] = lambda: md6(256, 64)(m1)
+    c['MD6-224 seq keyed'] = lambda: md6(224, 0, b'k')(m1)
+    c['HMAC-MD5'] = lambda: HMAC(MD5(), b'key')(m1)
+    c['HMAC-SHA2-512/256'] = lambda: HMAC(SHA2(512, 256), b'key')(m1)
+    c['HMAC-Blake-224'] = lambda: HMAC(Blake(224), b'key')(m1)
+    for n in (16, 24, 32):
+        c['AES-%d' % (8 * n)] = (lambda n: lambda: AES(ramp(n)).enc(ramp(16, 3, 1)))(n)
+        c['AES-%d dec' % (8 * n)] = (lambda n: lambda: AES(ramp(n)).dec(ramp(16, 3, 1)))(n)
+    c['DES'] = lambda: DES(ramp(8, 5, 1)).enc(ramp(8, 3, 1))
+    c['DES dec'] = lambda: DES(ramp(8, 5, 1)).dec(ramp(8, 3, 1))
+    c['TDEA'] = lambda: TDEA(ramp(8, 5, 1), ramp(8, 7, 2), ramp(8, 9, 3)).enc(ramp(8, 3, 1))
+    c['Serpent-128'] = lambda: Serpent(ramp(16)).enc(ramp(16, 3, 1))
+    c['Serpent-256'] = lambda: Serpent(ramp(32)).enc(ramp(16, 3, 1))
+    c['CBC-AES'] = lambda: Mo.CBC(AES(ramp(16)), ramp(16, 9, 4)).enc(m1)
+    c['CTR-DES'] = lambda: Mo.CTR(DES(ramp(8, 3, 1)), ramp(8, 5, 250)).enc(m1)
+    c['ECB-AES'] = lambda: Mo.ECB(AES(ramp(16))).enc(m1)
+    c['Salsa20/20-256'] = lambda: Salsa20(B1(ramp(32)), 20).enc(B1(ramp(8, 3, 1)), m1)
+    c['Salsa20/8-128'] = lambda: Salsa20(B1(ramp(16)), 8).enc(B1(ramp(8, 3, 1)), m1)
+    c['Chacha/20-256'] = lambda: Chacha(B1(ramp(32)), 20).enc(B1(ramp(8, 3, 1)), m1)
+    c['Chacha/8-128'] = lambda: Chacha(B1(ramp(16)), 8).enc(B1(ramp(8, 3, 1)), m1)
+    c['RC4'] = lambda: RC4(b'key').enc(m1)
+    c['TLSH-128'] = lambda: TLSH(128)(txt)
+    c['TLSH-256-w4-c3'] = lambda: TLSH(256, 4, 3)(txt)
+    c['tlsh (module instance)'] = lambda: TL.tlsh(txt)
+    c['Nilsimsa'] = lambda: Nilsimsa()(txt)
+    c['Nilsimsa-17'] = lambda: Nilsimsa(17)(txt)
+    c['crc32'] = lambda: C.crc32(m1)
+    c['crc32_fix_pos'] = lambda: C.crc32_fix_pos(m2, 3, 0xcafebabe)
+    c['crc-16'] = lambda: C.crc(m1, C.crc_table(B16()), 0xffff)
+    return c
+
+
+def pts_firstuse(tier):
+    names = sorted(configs())
+    return [(a, b) for a in names for b in names if a != b]
+
+
+def run_firstuse(ctx, pt):
+    """process P1 (a forked child of this untouched worker): B alone.  This worker: A first, then B.  Same answer."""
+    a, b = pt
+    cf = configs()
+
+    def solo():
+        try:
+            return ('ok', obs(cf[b]()))
+        except Exception as e:
+            return ('exc', type(e).__name__)
+    base = pristine(solo)
+    ctx.attempt(cf[a])
+    r = ctx.attempt(cf[b])
+    ctx.eq('C10/first-use/%s/after/%s' % (b, a), (r[0], obs(r[1])), base)
+    if a.split('-')[0].split(' ')[0] == b.split('-')[0].split(' ')[0]:
+        # same family: once more the other way round inside this process (A after B after A)
+        r2 = ctx.attempt(cf[a])
+        base_a = pristine(lambda: ('ok', obs(configs()[a]())))
+        ctx.eq('C10/first-use/%s/after/%s' % (a, b + '+' + a), (r2[0], obs(r2[1])), base_a)
+
+
 def subchecks():
-    return [Sub('long-runs', pts_long, run_long, engine='H', exhaustive=False, chunk=1,
+    return [Sub('first-use-pairs', pts_firstuse, run_firstuse, engine='H', chunk=1,
+                bound='every ordered pair (A, B) of 77 configurations (every SHA-2 / SHA-3 / BLAKE / BLAKE2 size incl. the unusual ones, module instances, Keccak, Skein, MD6, HMAC, AES / DES / TDEA / Serpent / Threefish in both directions, modes, stream ciphers, TLSH, Nilsimsa, CRC): A is used first in a fresh process, then B; B answers what it answers when it is the first thing the process does'),
+            Sub('long-runs', pts_long, run_long, engine='H', exhaustive=False, chunk=1,
                 bound='20 object kinds (hashes, HMAC, block ciphers, modes, stream ciphers under changing nonces, Nilsimsa, crc32, crc32_fix): one object answers 1100 (thorough 9000) distinct one-shot calls, then the first four again, then a fresh object; answers vs the same call made first in a forked child'),
             hsub('histories', systems, depth,
                  split=lambda tier: 1 if tier == 'quick' else 3, bound='60 object kinds (SHA1/SHA0/SHA2/SHA3/Keccak/MD4/MD5/MD6 x3/Blake x2/Blake2 x2/Skein x4/HMAC x2/TLSH/Nilsimsa/AES x2/DES/TDEA/Serpent/Threefish x2/ECB x2/CBC x2/CTR/CTS x2/Salsa20/Chacha/crc and the module singletons keccak_256, blake256, blake2b, blake2s, tlsh), each with 4-9 events (one-shot calls incl. per-call options and calls that raise; perturbations: unfinished updates, duplex, suspended keystream generators, sibling instances, shared inner objects); all histories to depth 3 (thorough 5), deduplicated by the canonical state of object + sibling; the module- and class-level state of the library is part of the canonical state (histories that change it are explored further) and reference answers come from forked children that start from the import-time state')]
